@@ -62,6 +62,8 @@ type shim struct {
 	// trace (kind "extstmt"): name of a mapped pseudo-field; before the call, the tuple of the call's arguments
 	// (receiver first) is appended to it — a record of what the callee was handed
 	trace string
+	// vari (kind "fun"): the callee's variadic parameter, 1-based; the call's arguments from there on are collected into ONE slice
+	vari int
 }
 
 type fieldSpec struct {
@@ -96,6 +98,9 @@ type transFunc struct {
 	// `append` to a slice field of the receiver (or of a struct copy of it) is REFUSED: in Go it may write into a backing
 	// array shared with other objects, which value slices cannot express; such code must use the clone idiom (make + copy)
 	noFieldAppend bool
+	// concrete static types that implement a nil-able interface type ("ptr:struct:IoCore" → "opt:Core"): where such a value
+	// is returned / assigned as the interface it becomes the non-nil interface value [v]
+	implements map[string]string
 }
 
 // tailSpec: from the first top-level statement whose source text is `from` on, the body is replaced by
@@ -161,6 +166,7 @@ type xl struct {
 	hoistLeaves int                  // operands seen so far while walking an expression in evaluation order
 	hoistFields int                  // … of which field reads, constants and calls left in place
 	stmts_      int
+	addrOf      *ast.Ident // the local whose address is being handed to a mutarg intrinsic (`&v` in that argument only)
 }
 
 // closureInfo: a local procedure.  A call `name()` is the body, inlined (a Go closure sees its captured variables by
@@ -248,7 +254,72 @@ func transTypeText(e ast.Expr) string {
 	return s
 }
 
+// structKey: an anonymous `struct{ A T; B U }` is named in the whitelist entry by its field names: "struct{A,B}"
+func structKey(st *ast.StructType) string {
+	var names []string
+	for _, f := range st.Fields.List {
+		for _, n := range f.Names {
+			names = append(names, n.Name)
+		}
+	}
+	return "struct{" + strings.Join(names, ",") + "}"
+}
+
+// checkStructDecl: the fields of a struct type written in the function are exactly the fields the entry declares
+func (x *xl) checkStructDecl(n ast.Node, st *ast.StructType, typ string) {
+	if !strings.HasPrefix(typ, "struct:") {
+		x.fail(n, "struct type mapped to %s", typ)
+	}
+	decl := x.fn.structs[typ[7:]]
+	var names []string
+	for _, f := range st.Fields.List {
+		if len(f.Names) == 0 {
+			x.fail(n, "embedded field in a local struct type")
+		}
+		for _, nm := range f.Names {
+			names = append(names, nm.Name)
+		}
+	}
+	if len(names) != len(decl) {
+		x.fail(n, "struct type %s has %d fields in the source, %d in the whitelist entry", typ, len(names), len(decl))
+	}
+	for i := range names {
+		if names[i] != decl[i].lean {
+			x.fail(n, "struct type %s: field %d is %s in the source, %s in the whitelist entry", typ, i, names[i], decl[i].lean)
+		}
+	}
+}
+
+// zeroLit: the zero value of a static type as a GoMini literal (structs: the tuple of their fields' zero values)
+func (x *xl) zeroLit(n ast.Node, typ string) string {
+	if z, ok := zeroOf(typ); ok {
+		return z
+	}
+	if z, ok := x.fn.zeros[typ]; ok {
+		return z
+	}
+	if strings.HasPrefix(typ, "struct:") {
+		var parts []string
+		for _, f := range x.fn.structs[typ[7:]] {
+			parts = append(parts, x.zeroLit(n, f.typ))
+		}
+		if len(parts) > 0 {
+			return ".list [" + strings.Join(parts, ", ") + "]"
+		}
+	}
+	x.fail(n, "zero value of %s", typ)
+	return ""
+}
+
 func (x *xl) goType(e ast.Expr) string {
+	if st, ok := e.(*ast.StructType); ok {
+		t, has := x.fn.types[structKey(st)]
+		if !has {
+			x.fail(e, "anonymous struct type (key %q) is not declared in the whitelist entry", structKey(st))
+		}
+		x.checkStructDecl(e, st, t)
+		return t
+	}
 	txt := transTypeText(e)
 	if t, ok := x.fn.types[txt]; ok {
 		return t
@@ -361,8 +432,32 @@ func (x *xl) namedConst(n ast.Node, txt string) (tx, bool) {
 		return tx{typ: "untyped", val: v}, true
 	}
 	if s, ok := x.fn.consts[txt]; ok {
+		if strings.HasPrefix(s, "src:") { // a constant declared in ANOTHER file of the package ("src:zapcore/level.go"): read there
+			_, f, err := parseTransFile(s[4:])
+			if err != nil {
+				x.fail(n, "constant %s: %v", txt, err)
+			}
+			name := txt
+			if i := strings.LastIndex(name, "."); i >= 0 {
+				name = name[i+1:]
+			}
+			saved := x.file
+			x.file = f
+			v, typ, ok := x.srcConstTyped(name)
+			x.file = saved
+			if !ok {
+				x.fail(n, "constant %s: no package-level constant declaration in %s", txt, s[4:])
+			}
+			if typ != "" {
+				return x.constTo(n, tx{typ: "untyped", val: v}, typ), true
+			}
+			return tx{typ: "untyped", val: v}, true
+		}
 		if s == "src" { // a package-level constant of the same file with a literal value: READ from the source
-			if v, ok := x.srcConst(txt); ok {
+			if v, typ, ok := x.srcConstTyped(txt); ok {
+				if typ != "" {
+					return x.constTo(n, tx{typ: "untyped", val: v}, typ), true
+				}
 				return tx{typ: "untyped", val: v}, true
 			}
 			if b, ok := x.srcVarBytes(txt); ok { // var name = []byte("literal"): a byte-string value
@@ -398,51 +493,109 @@ func (x *xl) namedConst(n ast.Node, txt string) (tx, bool) {
 	return tx{}, false
 }
 
-// srcConst finds `const name = <literal>` at package level of the translated file; in a block whose first spec is
-// `= iota` (plain, optionally typed) and whose other specs repeat it implicitly, the value is the spec's position.
+// srcConst finds `const name = <constant expression>` at package level of the translated file.  The expression may be a
+// literal, `iota`, another constant of the same file, and `+ - *`, unary minus, parentheses and `T(…)` conversions
+// over these; a spec without values repeats the last expression list of its block with its own `iota` (Go's rule).
 func (x *xl) srcConst(name string) (constant.Value, bool) {
-	if x.file == nil {
-		return nil, false
+	v, _, ok := x.srcConstDepth(name, 0)
+	return v, ok
+}
+
+// srcConstTyped also gives the static type of a TYPED constant (`DebugLevel Level = iota - 1`, `_minLevel = DebugLevel`)
+// when the entry maps the Go type to an integer type; "" for an untyped constant.
+func (x *xl) srcConstTyped(name string) (constant.Value, string, bool) {
+	v, tn, ok := x.srcConstDepth(name, 0)
+	if !ok || tn == "" {
+		return v, "", ok
+	}
+	if t, has := x.fn.types[tn]; has && isInt(t) {
+		return v, t, true
+	}
+	if t, has := goBasic[tn]; has && isInt(t) {
+		return v, t, true
+	}
+	return nil, "", false // a typed constant whose type the entry does not declare
+}
+
+func (x *xl) srcConstDepth(name string, depth int) (constant.Value, string, bool) {
+	if x.file == nil || depth > 8 {
+		return nil, "", false
 	}
 	for _, d := range x.file.Decls {
 		gd, ok := d.(*ast.GenDecl)
 		if !ok || gd.Tok != token.CONST {
 			continue
 		}
-		plainIota := false
+		var last []ast.Expr
+		lastType := ""
 		for si, sp := range gd.Specs {
 			vs := sp.(*ast.ValueSpec)
-			if si == 0 {
-				if len(vs.Names) == 1 && len(vs.Values) == 1 {
-					if id, ok := vs.Values[0].(*ast.Ident); ok && id.Name == "iota" {
-						plainIota = true
-					}
+			if len(vs.Values) != 0 {
+				last = vs.Values
+				lastType = ""
+				if vs.Type != nil {
+					lastType = exprString(vs.Type)
 				}
-			} else if len(vs.Values) != 0 || len(vs.Names) != 1 {
-				plainIota = false
 			}
 			for i, id := range vs.Names {
 				if id.Name != name {
 					continue
 				}
-				if plainIota {
-					return constant.MakeInt64(int64(si)), true
+				if i >= len(last) {
+					return nil, "", false
 				}
-				if i >= len(vs.Values) {
-					return nil, false
+				v, tn, ok := x.srcConstExpr(last[i], int64(si), depth)
+				if lastType != "" {
+					tn = lastType
 				}
-				if lit, ok := vs.Values[i].(*ast.BasicLit); ok && (lit.Kind == token.STRING || lit.Kind == token.INT || lit.Kind == token.CHAR) {
-					v := constant.MakeFromLiteral(lit.Value, lit.Kind, 0)
-					if lit.Kind != token.STRING {
-						v = constant.ToInt(v)
-					}
-					return v, true
-				}
-				return nil, false
+				return v, tn, ok
 			}
 		}
 	}
-	return nil, false
+	return nil, "", false
+}
+
+func (x *xl) srcConstExpr(e ast.Expr, iota int64, depth int) (constant.Value, string, bool) {
+	switch t := e.(type) {
+	case *ast.ParenExpr:
+		return x.srcConstExpr(t.X, iota, depth)
+	case *ast.BasicLit:
+		if t.Kind == token.STRING || t.Kind == token.INT || t.Kind == token.CHAR {
+			v := constant.MakeFromLiteral(t.Value, t.Kind, 0)
+			if t.Kind != token.STRING {
+				v = constant.ToInt(v)
+			}
+			return v, "", true
+		}
+	case *ast.Ident:
+		if t.Name == "iota" {
+			return constant.MakeInt64(iota), "", true
+		}
+		return x.srcConstDepth(t.Name, depth+1)
+	case *ast.UnaryExpr:
+		if t.Op == token.SUB {
+			if v, tn, ok := x.srcConstExpr(t.X, iota, depth); ok && v.Kind() == constant.Int {
+				return constant.UnaryOp(token.SUB, v, 0), tn, true
+			}
+		}
+	case *ast.BinaryExpr:
+		if t.Op == token.ADD || t.Op == token.SUB || t.Op == token.MUL {
+			a, ta, ok1 := x.srcConstExpr(t.X, iota, depth)
+			b, tb, ok2 := x.srcConstExpr(t.Y, iota, depth)
+			if ok1 && ok2 && a.Kind() == constant.Int && b.Kind() == constant.Int {
+				if ta == "" {
+					ta = tb
+				}
+				return constant.BinaryOp(a, t.Op, b), ta, true
+			}
+		}
+	case *ast.CallExpr: // a conversion T(c) to a named integer type of the same file
+		if id, ok := t.Fun.(*ast.Ident); ok && len(t.Args) == 1 && id.Obj != nil && id.Obj.Kind == ast.Typ {
+			v, _, ok := x.srcConstExpr(t.Args[0], iota, depth)
+			return v, id.Name, ok
+		}
+	}
+	return nil, "", false
 }
 
 // srcVarBytes finds `var name = []byte("literal")` at package level of the translated file (a variable the whitelist
@@ -500,8 +653,20 @@ func (x *xl) srcStructFields(name string) ([]string, bool) {
 			}
 			var out []string
 			for _, f := range st.Fields.List {
-				if len(f.Names) == 0 {
-					return nil, false // embedded field
+				if len(f.Names) == 0 { // embedded field: its name is the type's name (io.Writer → Writer, *T → T)
+					t := f.Type
+					if st, ok := t.(*ast.StarExpr); ok {
+						t = st.X
+					}
+					switch tt := t.(type) {
+					case *ast.Ident:
+						out = append(out, tt.Name)
+					case *ast.SelectorExpr:
+						out = append(out, tt.Sel.Name)
+					default:
+						return nil, false
+					}
+					continue
 				}
 				for _, n := range f.Names {
 					out = append(out, n.Name)
@@ -525,6 +690,14 @@ func (x *xl) place(e ast.Expr) (lv string, rd string, typ string, ok bool) {
 	switch t := e.(type) {
 	case *ast.ParenExpr:
 		return x.place(t.X)
+	case *ast.StarExpr:
+		// *recv of a POINTER receiver whose pointee the entry maps (recvAs): the pointee is that field.  (`*l = DebugLevel`)
+		if id, ok := t.X.(*ast.Ident); ok && id.Name == x.recvVar && x.recvVar != "" && x.fn.recvAs != nil && x.recvIsPointer() {
+			if _, shadow := x.lookupNonRecv(id.Name); !shadow {
+				f := x.fn.recvAs
+				return "(.fld " + leanStr(f.lean) + ")", "(.fld " + leanStr(f.lean) + ")", f.typ, true
+			}
+		}
 	case *ast.Ident:
 		if v, ok := x.lookup(t.Name); ok {
 			return "(.loc " + leanStr(v.lean) + ")", "(.loc " + leanStr(v.lean) + ")", v.typ, true
@@ -558,6 +731,15 @@ func (x *xl) place(e ast.Expr) (lv string, rd string, typ string, ok bool) {
 		}
 	}
 	return "", "", "", false
+}
+
+// recvIsPointer: the method is declared on *T
+func (x *xl) recvIsPointer() bool {
+	if x.fd == nil || x.fd.Recv == nil || len(x.fd.Recv.List) != 1 {
+		return false
+	}
+	_, ok := x.fd.Recv.List[0].Type.(*ast.StarExpr)
+	return ok
 }
 
 // lookupNonRecv: is the receiver name shadowed by a local?
@@ -623,11 +805,27 @@ func (x *xl) expr(e ast.Expr) tx {
 			}
 		}
 		x.fail(e, "selector %s is neither a mapped receiver field nor a declared constant", exprString(e))
+	case *ast.StarExpr:
+		if _, rd, typ, ok := x.place(e); ok {
+			return tx{lean: rd, typ: typ}
+		}
+		// *p where p is a nil-able pointer to an integer ("opt:<int>" = [] / [v]): the element; nil panics (as in Go)
+		if p, ok := x.tryExpr(t.X); ok && strings.HasPrefix(p.typ, "opt:") && isInt(p.typ[4:]) {
+			return tx{lean: "(.index " + p.lean + " (.lit (.int 0)))", typ: p.typ[4:]}
+		}
+		x.fail(e, "dereference %s: only *recv of a pointer receiver with a mapped pointee and *p of an opt:<int> are in the subset", exprString(e))
 	case *ast.UnaryExpr:
 		if t.Op == token.AND { // &T{a, b}: a constructor the entry gives a meaning to (shim "&T")
 			if cl, ok := t.X.(*ast.CompositeLit); ok {
 				key := "&" + exprString(cl.Type)
 				sh, has := x.fn.calls[key]
+				if !has {
+					// &T{…} of a struct the entry declares: the record itself, as a non-nil pointer value
+					if typ, ok := x.tryType(cl.Type); ok && strings.HasPrefix(typ, "struct:") {
+						v := x.expr(cl)
+						return tx{lean: v.lean, typ: "ptr:" + typ}
+					}
+				}
 				if !has || sh.kind != "ext" || len(sh.res) != 1 {
 					x.fail(e, "%s{…} needs a shim %q of kind ext", key, key)
 				}
@@ -640,6 +838,10 @@ func (x *xl) expr(e ast.Expr) tx {
 				}
 				return tx{lean: "(.call " + leanStr(sh.f) + " [" + strings.Join(args, ", ") + "])", typ: sh.res[0]}
 			}
+		}
+		if t.Op == token.AND && x.addrOf != nil && t.X == ast.Expr(x.addrOf) { // &v handed to a mutarg intrinsic: v's value
+			v, _ := x.lookup(x.addrOf.Name)
+			return tx{lean: "(.loc " + leanStr(v.lean) + ")", typ: v.typ}
 		}
 		if t.Op == token.AND { // &v where v is the second object: the object value itself
 			if id, ok := t.X.(*ast.Ident); ok && id.Name == x.otherVar && x.otherVar != "" && x.fn.otherAs != nil {
@@ -783,7 +985,16 @@ func (x *xl) expr(e ast.Expr) tx {
 		return tx{lean: "(.call \"tuple\" [" + strings.Join(parts, ", ") + "])", typ: typ}
 	case *ast.SliceExpr:
 		if t.Slice3 {
-			x.fail(e, "3-index slice is outside the subset")
+			// the full-capacity idiom x[:len(x):len(x)] — the VALUE x with no spare capacity, so that an append to it cannot write
+			// into x's backing array — is the only 3-index slice in the subset (value slices have no capacity)
+			if !isCappedSlice(t) {
+				x.fail(e, "3-index slice is in the subset only as x[:len(x):len(x)]")
+			}
+			a := x.expr(t.X)
+			if !(a.typ == "bytes" || strings.HasPrefix(a.typ, "[]")) {
+				x.fail(e, "slicing a value of type %s", a.typ)
+			}
+			return a
 		}
 		a := x.expr(t.X)
 		if !(a.typ == "string" || a.typ == "bytes" || strings.HasPrefix(a.typ, "[]")) {
@@ -960,6 +1171,8 @@ type tcall struct {
 	pureTrace bool     // the call touches nothing Go code can read (only the trace and its own results)
 	pureFun   bool     // kind "funpure": a translated callee claimed (and checked) to assign no field
 	recvRd    string   // addret / cas: the receiver as an expression
+	before    []string // kind "funaddr": statements copying the addressed local into the callee's pointee field
+	after     []string // … and back
 	old, new  string   // cas
 }
 
@@ -1266,8 +1479,50 @@ func (x *xl) callExpr(c *ast.CallExpr) (tx, bool) {
 			x.fail(c, "shim %s on %s", sh.kind, key)
 		}
 		args = append(args, x.withArgs(c, sh, key)...)
+		// the written argument may be `&v` for a local v (json Decode(&pld)): the intrinsic is handed v and returns its new value
+		target := c.Args[idx]
+		if u, ok := target.(*ast.UnaryExpr); ok && u.Op == token.AND {
+			if id, isId := u.X.(*ast.Ident); isId {
+				if _, isLoc := x.lookup(id.Name); isLoc {
+					target = id
+					x.addrOf = id
+				}
+			}
+		}
 		addArgs()
-		lv, _ := x.lvalue(c.Args[idx])
+		x.addrOf = nil
+		// the written argument may be a field of a LOCAL record (addFields(clone.enc, fields)): the intrinsic's result goes
+		// to a fresh local and the record is rebuilt with that field replaced
+		if tsel, ok := target.(*ast.SelectorExpr); ok {
+			if id, ok := tsel.X.(*ast.Ident); ok {
+				if v, ok := x.lookup(id.Name); ok && (strings.HasPrefix(v.typ, "struct:") || strings.HasPrefix(v.typ, "ptr:struct:")) {
+					decl := x.fn.structs[v.typ[strings.Index(v.typ, "struct:")+7:]]
+					tmp := fmt.Sprintf("l%d", x.nloc)
+					x.nloc++
+					x.legend = append(x.legend, tmp+" = (new value of "+exprString(target)+")")
+					var parts []string
+					found := false
+					for i, f := range decl {
+						if f.lean == tsel.Sel.Name {
+							found = true
+							parts = append(parts, "(.loc "+leanStr(tmp)+")")
+						} else {
+							parts = append(parts, fmt.Sprintf("(.index (.loc %s) (.lit (.int %d)))", leanStr(v.lean), i))
+						}
+					}
+					if !found {
+						x.fail(c, "field %s of %s is not declared in the whitelist entry", tsel.Sel.Name, v.typ)
+					}
+					pc := &tcall{ctor: "callX", f: sh.f, args: args, res: sh.res, pre: []string{"(.loc " + leanStr(tmp) + ")"}}
+					pc.after = []string{"(.assign [(.loc " + leanStr(v.lean) + ")] [(.call \"tuple\" [" + strings.Join(parts, ", ") + "])])"}
+					pendingCall = pc
+					x.addTrace(c, sh, key, args)
+					pendingCall.pureTrace = false
+					return tx{}, true
+				}
+			}
+		}
+		lv, _ := x.lvalue(target)
 		pendingCall = &tcall{ctor: "callX", f: sh.f, args: args, res: sh.res, pre: []string{lv}}
 		x.addTrace(c, sh, key, args)
 		pendingCall.pureTrace = false
@@ -1398,11 +1653,36 @@ func (x *xl) callExpr(c *ast.CallExpr) (tx, bool) {
 		addArgs()
 		pendingCall = &tcall{ctor: "call", f: sh.f, args: args, res: sh.res}
 		return tx{}, true
+	case "funaddr":
+		// statement  lhs… = translated METHOD f with a pointer receiver, called on an addressable LOCAL v (Go takes &v):
+		// the callee's pointee field (flds[0], a GoMini field name of the CALLEE's entry) is loaded from v before the call
+		// and v is reloaded from it afterwards; the callee's nil-receiver flag (with[0], optional) is false.  Sound because
+		// nothing else can hold &v while the call runs (the subset has no other way to take an address).
+		if !hasRecv || !strings.HasPrefix(recvLV, "(.loc ") || len(sh.flds) != 1 {
+			x.fail(c, "shim funaddr on %s needs an addressable local and the callee's pointee field", key)
+		}
+		addArgs()
+		pc := &tcall{ctor: "call", f: sh.f, args: args, res: sh.res}
+		pc.before = append(pc.before, "(.assign [(.fld "+leanStr(sh.flds[0])+")] ["+recvLean+"])")
+		if len(sh.with) == 1 {
+			pc.before = append(pc.before, "(.assign [(.fld "+leanStr(sh.with[0])+")] [(.lit (.bool false))])")
+		}
+		pc.after = append(pc.after, "(.assign ["+recvLV+"] [(.fld "+leanStr(sh.flds[0])+")])")
+		pendingCall = pc
+		return tx{}, true
 	case "fun", "funpure":
 		if !isSelf && !isPkgFn && !isOther {
 			x.fail(c, "translated function %s must be called on the receiver itself", key)
 		}
 		addArgs()
+		// a callee with a variadic parameter (shim.vari = its 1-based position): the arguments from there on ARE the slice
+		// (unless the call spreads one: f(xs...))
+		if sh.vari > 0 && !c.Ellipsis.IsValid() {
+			if len(args) < sh.vari-1 {
+				x.fail(c, "too few arguments for the variadic callee %s", key)
+			}
+			args = append(append([]string{}, args[:sh.vari-1]...), "(.call \"tuple\" ["+strings.Join(args[sh.vari-1:], ", ")+"])")
+		}
 		pendingCall = &tcall{ctor: "call", f: sh.f, args: args, res: sh.res, pureFun: sh.kind == "funpure"}
 		if sh.kind == "funpure" {
 			// the claim is checked on the callee's generated body when the table is assembled
@@ -1597,9 +1877,23 @@ func (x *xl) appendCall(c *ast.CallExpr) tx {
 	}
 	s := x.expr(c.Args[0])
 	if x.fn.noFieldAppend {
-		if sel, ok := c.Args[0].(*ast.SelectorExpr); ok {
+		// the slice appended to, under any re-slicing: a field of the receiver (or of a struct copy of it) may share its
+		// backing array with other objects — unless the outermost form is the full-capacity idiom f[:len(f):len(f)]
+		base := unparen(c.Args[0])
+		capped := false
+		if se, ok := base.(*ast.SliceExpr); ok && isCappedSlice(se) {
+			capped = true
+		}
+		for {
+			se, ok := base.(*ast.SliceExpr)
+			if !ok {
+				break
+			}
+			base = unparen(se.X)
+		}
+		if sel, ok := base.(*ast.SelectorExpr); ok && !capped {
 			if id, ok := sel.X.(*ast.Ident); ok && (id.Name == x.recvVar || id.Name == x.otherVar) {
-				x.fail(c, "append to %s: a slice field of the receiver (or of a struct copy of it) may share its backing array with other objects; use make + copy", exprString(c.Args[0]))
+				x.fail(c, "append to %s: a slice field of the receiver (or of a struct copy of it) may share its backing array with other objects; use make + copy or cap it (f[:len(f):len(f)])", exprString(c.Args[0]))
 			}
 		}
 	}
@@ -1739,6 +2033,49 @@ func (x *xl) hoistCall(t *ast.CallExpr, conditional, first bool, out *[]string) 
 	*out = append(*out, x.emitCall(t, pc, []string{"(.loc " + leanStr(tmp.lean) + ")"}, []string{tmp.typ}))
 }
 
+// isCappedSlice: x[:len(x):len(x)]
+func isCappedSlice(t *ast.SliceExpr) bool {
+	if !t.Slice3 || t.Low != nil || t.High == nil || t.Max == nil {
+		return false
+	}
+	want := "len(" + exprString(t.X) + ")"
+	return exprString(t.High) == want && exprString(t.Max) == want
+}
+
+func unparen(e ast.Expr) ast.Expr {
+	for {
+		p, ok := e.(*ast.ParenExpr)
+		if !ok {
+			return e
+		}
+		e = p.X
+	}
+}
+
+// containsStmtCall: does evaluating e make a call that is a STATEMENT in GoMini (translated function, recorded intrinsic)?
+func (x *xl) containsStmtCall(e ast.Expr) bool {
+	found := false
+	ast.Inspect(e, func(n ast.Node) bool {
+		if c, ok := n.(*ast.CallExpr); ok && !found {
+			func() {
+				defer func() {
+					if r := recover(); r != nil {
+						if _, is := r.(xerr); !is {
+							panic(r)
+						}
+					}
+				}()
+				if _, st := x.callExpr(c); st {
+					found = true
+				}
+			}()
+			pendingCall = nil
+		}
+		return !found
+	})
+	return found
+}
+
 // hoist prepares expression e; when root is true and e is itself a call, only its arguments are prepared (the
 // statement translator deals with the call itself).
 func (x *xl) hoist(e ast.Expr, root bool) []string {
@@ -1826,6 +2163,10 @@ func (x *xl) coerce(n ast.Node, v tx, typ string) tx {
 	}
 	v = x.constTo(n, v, typ)
 	if v.typ != typ {
+		// a concrete value used as an interface the entry says it implements: the non-nil interface value [v]
+		if to, ok := x.fn.implements[v.typ]; ok && to == typ && strings.HasPrefix(typ, "opt:") {
+			return tx{lean: "(.call \"tuple\" [" + v.lean + "])", typ: typ}
+		}
 		x.fail(n, "value of type %s assigned to %s", v.typ, typ)
 	}
 	return v
@@ -1847,6 +2188,9 @@ func (x *xl) stmt1(s ast.Stmt) string {
 		c, ok := t.X.(*ast.CallExpr)
 		if !ok {
 			x.fail(s, "expression statement %s", exprString(t.X))
+		}
+		if r, ok := x.onceDo(c); ok {
+			return r
 		}
 		_, isStmt := x.callExpr(c)
 		if !isStmt {
@@ -1887,6 +2231,14 @@ func (x *xl) stmt1(s ast.Stmt) string {
 		}
 		x.fail(s, "%s is outside the subset", t.Tok)
 	case *ast.IfStmt:
+		// `if A && B { S }` (no else) whose right operand makes a statement-level call (a translated function, a recorded
+		// intrinsic): it IS `if A { if B { S } }`, and each condition then starts with its call, which can be hoisted
+		if be, ok := unparen(t.Cond).(*ast.BinaryExpr); ok && be.Op == token.LAND && t.Else == nil && x.containsStmtCall(be.Y) {
+			inner := &ast.IfStmt{If: be.Y.Pos(), Cond: be.Y, Body: t.Body}
+			outer := &ast.IfStmt{If: t.If, Init: t.Init, Cond: be.X,
+				Body: &ast.BlockStmt{Lbrace: t.Body.Lbrace, List: []ast.Stmt{inner}, Rbrace: t.Body.Rbrace}}
+			return x.stmt1(outer)
+		}
 		x.push()
 		defer x.pop()
 		var pre []string
@@ -1913,6 +2265,8 @@ func (x *xl) stmt1(s ast.Stmt) string {
 		return block(append(pre, r))
 	case *ast.SwitchStmt:
 		return x.switchStmt(t)
+	case *ast.TypeSwitchStmt:
+		return x.typeSwitchStmt(t)
 	case *ast.ForStmt:
 		x.push()
 		defer x.pop()
@@ -1940,6 +2294,44 @@ func (x *xl) stmt1(s ast.Stmt) string {
 	}
 	x.fail(s, "statement kind %T is outside the subset", s)
 	return ""
+}
+
+// onceDo: `recv.Once.Do(func() { … })` (shim kind "once", flds[0] = the mapped boolean field "the Once has fired"):
+// if it has not fired, the body runs — inlined, it sees the receiver like the method does — and the flag is set; otherwise
+// nothing happens.  (sync.Once also serialises concurrent callers; the sequential meaning is what is translated.)
+func (x *xl) onceDo(c *ast.CallExpr) (string, bool) {
+	sel, ok := c.Fun.(*ast.SelectorExpr)
+	if !ok || len(c.Args) != 1 {
+		return "", false
+	}
+	key := exprString(c.Fun)
+	if id0 := rootIdent(sel.X); id0 == x.recvVar && x.recvVar != "" {
+		key = "recv" + strings.TrimPrefix(key, x.recvVar)
+	} else {
+		return "", false
+	}
+	sh, has := x.fn.calls[key]
+	if !has || sh.kind != "once" {
+		return "", false
+	}
+	fl, isLit := c.Args[0].(*ast.FuncLit)
+	if !isLit || len(fl.Type.Params.List) != 0 || (fl.Type.Results != nil && len(fl.Type.Results.List) != 0) || len(sh.flds) != 1 {
+		x.fail(c, "shim once: %s must be handed a literal func() { … }", key)
+	}
+	fs, ok := x.fn.fields[sh.flds[0]]
+	if !ok || fs.typ != "bool" {
+		x.fail(c, "shim once names the unmapped (or non-boolean) field %s", sh.flds[0])
+	}
+	for _, st := range fl.Body.List {
+		ast.Inspect(st, func(n ast.Node) bool {
+			if _, isRet := n.(*ast.ReturnStmt); isRet {
+				x.fail(c, "return inside a Once body is outside the subset")
+			}
+			return true
+		})
+	}
+	body := x.scoped(fl.Body)
+	return "(.ite (.un .not (.fld " + leanStr(fs.lean) + "))\n  " + indent(block([]string{body, "(.assign [(.fld " + leanStr(fs.lean) + ")] [(.lit (.bool true))])"}), 2) + "\n  .skip)", true
 }
 
 func (x *xl) emitCall(n ast.Node, pc *tcall, lvs []string, ltyps []string) string {
@@ -1991,6 +2383,11 @@ func (x *xl) emitCall(n ast.Node, pc *tcall, lvs []string, ltyps []string) strin
 		lvs = append(lvs, pc.post...)
 		if pc.traceStmt != "" {
 			return block([]string{pc.traceStmt, "(." + pc.ctor + " [" + strings.Join(lvs, ", ") + "] " + leanStr(pc.f) + " [" + strings.Join(pc.args, ", ") + "])"})
+		}
+		if len(pc.before)+len(pc.after) != 0 {
+			ss := append([]string{}, pc.before...)
+			ss = append(ss, "(."+pc.ctor+" ["+strings.Join(lvs, ", ")+"] "+leanStr(pc.f)+" ["+strings.Join(pc.args, ", ")+"])")
+			return block(append(ss, pc.after...))
 		}
 		return "(." + pc.ctor + " [" + strings.Join(lvs, ", ") + "] " + leanStr(pc.f) + " [" + strings.Join(pc.args, ", ") + "])"
 	}
@@ -2354,7 +2751,11 @@ func (x *xl) assignValues(t *ast.AssignStmt, vs []tx) string {
 		if c, ok := r.(*ast.CallExpr); ok {
 			if id, ok := c.Fun.(*ast.Ident); ok && id.Name == "append" {
 				if _, isVar := x.lookup("append"); !isVar {
-					if exprString(t.Lhs[i]) != exprString(c.Args[0]) || t.Tok == token.DEFINE {
+					capped := false
+					if se, ok := unparen(c.Args[0]).(*ast.SliceExpr); ok && isCappedSlice(se) {
+						capped = true // y := append(x[:len(x):len(x)], …) copies: x is not written, y is a slice of its own
+					}
+					if !capped && (exprString(t.Lhs[i]) != exprString(c.Args[0]) || t.Tok == token.DEFINE) {
 						x.fail(t, "append must have the form x = append(x, …)")
 					}
 				}
@@ -2448,11 +2849,7 @@ func (x *xl) decl(t *ast.DeclStmt) string {
 					}
 					val = x.coerce(vs, v, typ).lean
 				} else {
-					z, ok := zeroOf(typ)
-					if !ok {
-						x.fail(t, "zero value of %s", typ)
-					}
-					val = "(.lit (" + z + "))"
+					val = "(.lit (" + x.zeroLit(t, typ) + "))"
 				}
 				if n.Name == "_" {
 					continue
@@ -2462,6 +2859,19 @@ func (x *xl) decl(t *ast.DeclStmt) string {
 			}
 		}
 		return block(out)
+	}
+	if gd.Tok == token.TYPE {
+		// a local `type T struct {…}`: the entry declares T (types + structs); the field list is checked against it
+		for _, sp := range gd.Specs {
+			ts := sp.(*ast.TypeSpec)
+			st, isStruct := ts.Type.(*ast.StructType)
+			typ, has := x.fn.types[ts.Name.Name]
+			if !isStruct || !has || ts.TypeParams != nil {
+				x.fail(t, "local type %s: only struct types the whitelist entry declares are in the subset", ts.Name.Name)
+			}
+			x.checkStructDecl(t, st, typ)
+		}
+		return ".skip"
 	}
 	x.fail(t, "declaration %s is outside the subset", gd.Tok)
 	return ""
@@ -2669,6 +3079,81 @@ func (x *xl) switchStmt(t *ast.SwitchStmt) string {
 		r = "(.case " + cases[i].vals + "\n  " + indent(cases[i].body, 2) + "\n" + r + ")"
 	}
 	return block(append(pre, "(.switch "+tag.lean+"\n  "+indent(r, 2)+")"))
+}
+
+// typeSwitchStmt: `switch v := y.(type) { case T1: …; case T2: …; default: … }` with ONE type per case, each of which has a
+// comma-ok shim ".(T)" (an external intrinsic answering (value, ok)): the cases are tried in source order — the first
+// assertion that holds runs its body with v bound to the asserted value; `default` (wherever written) runs when none holds,
+// with v bound to y itself.  No `fallthrough` (Go forbids it here); `break` is outside the subset in this form.
+func (x *xl) typeSwitchStmt(t *ast.TypeSwitchStmt) string {
+	if t.Init != nil {
+		x.fail(t, "type switch with an init statement is outside the subset")
+	}
+	var bind string
+	var subject ast.Expr
+	switch a := t.Assign.(type) {
+	case *ast.AssignStmt:
+		if len(a.Lhs) != 1 || len(a.Rhs) != 1 || a.Tok != token.DEFINE {
+			x.fail(t, "type switch header")
+		}
+		bind = a.Lhs[0].(*ast.Ident).Name
+		subject = a.Rhs[0].(*ast.TypeAssertExpr).X
+	case *ast.ExprStmt:
+		subject = a.X.(*ast.TypeAssertExpr).X
+	default:
+		x.fail(t, "type switch header")
+	}
+	x.push()
+	defer x.pop()
+	subj := x.defaulted(subject, x.expr(subject))
+	var deflt *ast.CaseClause
+	type arm struct {
+		cc *ast.CaseClause
+		sh shim
+	}
+	var arms []arm
+	for _, c := range t.Body.List {
+		cc := c.(*ast.CaseClause)
+		if cc.List == nil {
+			deflt = cc
+			continue
+		}
+		if len(cc.List) != 1 {
+			x.fail(cc, "a type-switch case with several types is outside the subset")
+		}
+		key := ".(" + exprString(cc.List[0]) + ")"
+		sh, ok := x.fn.calls[key]
+		if !ok || sh.kind != "extstmt" || len(sh.res) != 2 || sh.res[1] != "bool" {
+			x.fail(cc, "type-switch case %s: no comma-ok shim %q in the whitelist entry of %s", exprString(cc.List[0]), key, x.fn.name)
+		}
+		arms = append(arms, arm{cc, sh})
+	}
+	body := func(cc *ast.CaseClause, val string, typ string) string {
+		x.push()
+		defer x.pop()
+		if bind != "" && bind != "_" {
+			v := x.declare(cc, bind, typ)
+			return block([]string{"(.assign [(.loc " + leanStr(v.lean) + ")] [" + val + "])", x.stmts(cc.Body)})
+		}
+		return x.stmts(cc.Body)
+	}
+	out := ".skip"
+	if deflt != nil {
+		out = body(deflt, subj.lean, subj.typ)
+	}
+	for i := len(arms) - 1; i >= 0; i-- {
+		a := arms[i]
+		tv := tvar{fmt.Sprintf("l%d", x.nloc), a.sh.res[0]}
+		x.nloc++
+		tok := tvar{fmt.Sprintf("l%d", x.nloc), "bool"}
+		x.nloc++
+		x.legend = append(x.legend, tv.lean+", "+tok.lean+" = (value, ok) of the type-switch case "+exprString(a.cc.List[0]))
+		th := body(a.cc, "(.loc "+leanStr(tv.lean)+")", a.sh.res[0])
+		out = block([]string{
+			"(.callX [(.loc " + leanStr(tv.lean) + "), (.loc " + leanStr(tok.lean) + ")] " + leanStr(a.sh.f) + " [" + subj.lean + "])",
+			"(.ite (.loc " + leanStr(tok.lean) + ")\n  " + indent(th, 2) + "\n  " + indent(out, 2) + ")"})
+	}
+	return out
 }
 
 func (x *xl) rangeStmt(t *ast.RangeStmt) string {
